@@ -1,0 +1,15 @@
+//go:build verif
+// +build verif
+
+package network
+
+// Accessor for the verification harness (property C09); compiled only with
+// the build tag "verif".
+
+// VerifConnCount returns how many connections are registered for that peer
+// in the router's connection table.
+func (r *Router) VerifConnCount(id ServerIdentityID) int {
+	r.Lock()
+	defer r.Unlock()
+	return len(r.connections[id])
+}
